@@ -78,6 +78,7 @@ Menu(st) ==
 
 \* calls that follow a state-changing call (match, sub, gsub) in a history: the
 \* ones that read what the first call left behind
+Regexes2 == { Star(Lit(c_b)), Alt(Lit(c_a), Cat(Lit(c_a), Lit(c_b))), DotU }
 Menu2(st) ==
        (IF st.matched
         THEN {[op |-> "substr", m |-> VarRSTART, n |-> VarRLENGTH], [op |-> "substr", m |-> VarRSTART, n |-> NoArg],
@@ -85,19 +86,20 @@ Menu2(st) ==
         ELSE {})
   \cup {[op |-> "length"]}
   \cup {[op |-> "match", r |-> r1] : r1 \in RegexesSmall}
-  \cup {[op |-> "index", pat |-> p1] : p1 \in {<<c_a>>, <<c_x>>, EACUTE, <<AMP>>}}
-  \cup {[op |-> "split", sep |-> s1] : s1 \in {SepChar(<<c_a>>), SepChar(EACUTE), SepChar(<<c_x>>)}}
-  \cup {[op |-> o1, r |-> r1, repl |-> p1] : o1 \in {"sub", "gsub"}, r1 \in RegexesSmall, p1 \in {<<AMP>>, <<c_x, AMP>>}}
-  \cup {[op |-> "substr", m |-> m1, n |-> n1] : m1 \in {IntN(2), Fin(3)}, n1 \in {IntN(1), NoArg}}
+  \cup {[op |-> "index", pat |-> p1] : p1 \in {<<c_x>>, EACUTE, <<AMP>>}}
+  \cup {[op |-> "split", sep |-> s1] : s1 \in {SepChar(<<c_a>>), SepChar(<<c_x>>)}}
+  \cup {[op |-> o1, r |-> r1, repl |-> p1] : o1 \in {"sub", "gsub"}, r1 \in Regexes2, p1 \in {<<AMP>>, <<c_x, AMP>>}}
+  \cup {[op |-> "substr", m |-> Fin(5), n |-> IntN(2)]}
 
 StateChanging(call) == call.op \in {"match", "sub", "gsub"}
 
 \* A history is extended by a second call only after a call that changes the
 \* state (the histories through a call that changes nothing but the returned
 \* value are the histories without it), taken from the reduced menu, on a short subject.
+ExtRepls == { <<AMP>>, <<c_x, AMP, AMP>>, <<BSL, AMP>> }
 Extendable(call, subject) ==
   /\ StateChanging(call)
   /\ Len(Chars(subject)) <= MaxLen2
   /\ call.r \in RegexesSmall
-  /\ call.op \in {"sub", "gsub"} => call.repl \in ReplsSmall
+  /\ call.op \in {"sub", "gsub"} => call.repl \in ExtRepls
 =============================================================================
